@@ -62,6 +62,7 @@ type vProfile struct {
 	twoSided    bool  // C16: a rejection in the container as drawn is compared with the rearranged one instead of being assumed away
 	visErr      bool  // call Visualize(VisualizeError(err)) after every failed Invoke
 	softOuter   bool  // soft group fields are not drawn inside nested parameter objects
+	nestLast    bool  // the nested parameter object of an invoked function may be declared after the plain fields
 	as3         bool  // As lists may have three interfaces
 	regDShape   []int // if set and >= 0: the shape (see genFunc) of the i-th registration when it is a decorator is fixed
 }
@@ -146,6 +147,9 @@ func (h *vHist) genFunc(kind int, tag string) *vFunc {
 	maxR := h.p.maxResults
 	if kind == vInvoked {
 		maxP = h.p.invParams
+		if h.p.nestLast {
+			f.nestedLast = verifNdBool(tag + ".nlast")
+		}
 	} else if n := h.nRegsDrawn - 1; n >= 0 {
 		if n < len(h.p.regParams) {
 			maxP = h.p.regParams[n]
